@@ -472,6 +472,10 @@ func scenarioPerm(seed int64, idx int) ScenarioOut {
 			wgt = r.Weight
 		}
 		v, _ := accountant.NewVertex(t, l.Hash, r.Hash, wgt+1, sealer)
+		if idx%2 == 0 { // a history sealed hours ago (a node catching up): same vertex, older sealing time, properly signed
+			v.CreatedAt = time.Now().Add(-3*time.Hour + time.Duration(len(set))*time.Second)
+			v.Hash, v.Signature = sealer.Sign(v.VerifInitData())
+		}
 		w.remember(&v)
 		set = append(set, &v)
 		return &v
@@ -534,6 +538,33 @@ func scenarioPerm(seed int64, idx int) ScenarioOut {
 	for i := 0; i < 200; i++ {
 		if had, _ := dst.retry(-1); !had {
 			break
+		}
+	}
+	if idx%8 == 3 {
+		// four bursts of an 18-vertex chain, each delivered children-first and then retried until the buffer is empty: several hundred
+		// retries on ONE ledger, every vertex well inside the bounds (at most 17 parked, at most 17 retries each)
+		tail := set[len(set)-1]
+		if _, err := ref.ab.ReadVertex(context.Background(), tail.Hash); err == nil {
+			for burst := 0; burst < 4; burst++ {
+				var chain []*accountant.Vertex
+				for k := 0; k < 18; k++ {
+					tail = mk(s.recvRich, s.users[1+k%3].Address(), 1, tail, tail)
+					chain = append(chain, tail)
+				}
+				for _, v := range chain {
+					ref.add(v, -1)
+				}
+				for k := len(chain) - 1; k >= 0; k-- {
+					dst.add(chain[k], -1)
+				}
+				for i := 0; i < 400; i++ {
+					if had, _ := dst.retry(-1); !had {
+						break
+					}
+				}
+				dst.stats["perm.bursts"]++
+			}
+			refSnap = w.canon(&ref.prev)
 		}
 	}
 	dst.stats["perm.parked"] += parked
